@@ -105,8 +105,24 @@ fn perturb_heap(task: usize, k: usize) {
     std::mem::forget(blocks); // the rest stays allocated
 }
 
+pub fn level_filter(l: Option<u8>) -> log::LevelFilter {
+    match l {
+        Some(0) => log::LevelFilter::Off,
+        Some(1) => log::LevelFilter::Error,
+        Some(2) => log::LevelFilter::Warn,
+        Some(3) => log::LevelFilter::Info,
+        Some(4) => log::LevelFilter::Debug,
+        _ => log::LevelFilter::Trace,
+    }
+}
+
 fn run_call(task: usize, k: usize, call: &Call) -> CallOut {
     perturb_heap(task, k);
+    if let (Some(l), false) = (call.log_level, seams::in_shuttle()) {
+        // the host turns its logging up or down between two calls
+        log::set_max_level(level_filter(Some(l)));
+        state().ev(&format!("t{task} fault log_level {l}"));
+    }
     let mut session_err: Option<String> = None;
     if call.session {
         // the protocol `prqlc compile --debug-log` follows: one session, closed by its owner.
@@ -460,7 +476,7 @@ fn run_threads(plan: &Plan, out: &mut Outcome) -> (Vec<Vec<CallOut>>, Vec<CallOu
         plan.threads.iter().map(|c| vec![None; c.len()]).collect(),
     ));
     seams::set_mode(seams::Mode::Threads);
-    threads::start(&plan.sched, plan.threads.len(), plan.alloc_yield_mean as u64, plan.block_yield_mean as u64, plan.atomic_yield_mean as u64, plan.atomic_hold_mean as u64);
+    threads::start(&plan.sched, plan.threads.len(), plan.alloc_yield_mean as u64, plan.block_yield_mean as u64, plan.atomic_yield_mean as u64, plan.atomic_hold_mean as u64, plan.atomic_focus as u64 | ((plan.spin_guard as u64) << 16));
     let mut handles = Vec::new();
     for (t, calls) in plan.threads.iter().enumerate() {
         let calls = calls.clone();
@@ -567,6 +583,10 @@ pub fn run_plan_here(plan: &Plan) -> Outcome {
         st.log = if plan.keep_log { Some(Vec::new()) } else { None };
         st.tasks = vec![TaskState::default(); plan.threads.len() + 1];
         st.ev(&format!("seed {} stratum {}", plan.exec_seed, plan.stratum));
+    }
+    log::set_max_level(level_filter(plan.log_level));
+    if let Some(l) = plan.log_level {
+        state().ev(&format!("fault log_level {l}"));
     }
     // simulated time from here on (1 µs per reading unless the plan says otherwise)
     seams::set_clock_step(if plan.clock_step_ns == 0 { 1_000 } else { plan.clock_step_ns });
